@@ -109,22 +109,24 @@ Qed.
 (** what the driver guarantees for an http case: a non-negative Age value, and
     both clock readings of the bracket in one second (so the apparent age is
     the same at both ends) *)
-Definition wf_http (h : hvals) (now dmax : Z) : Prop :=
-  0 <= hv_age h /\ 0 <= dmax.
+Definition wf_http (h : hvals) (now dmax bdelay : Z) : Prop :=
+  0 <= hv_age h /\ 0 <= dmax /\ 0 <= bdelay.
 
-Theorem check_sound_http : forall f b cachable h dflt now dmax tget o_nsets o_set o_hit,
-  wf_http h now dmax ->
-  let v := check f (CHttp b cachable h dflt now dmax tget o_nsets o_set o_hit) in
+Theorem check_sound_http : forall f b cachable h dflt now dmax bdelay tget o_nsets o_set o_hit,
+  wf_http h now dmax bdelay ->
+  let v := check f (CHttp b cachable h dflt now dmax bdelay tget o_nsets o_set o_hit) in
   v_corr v = true -> v_guards v = [] -> v_prop v = true.
 Proof.
-  intros f b cachable h dflt now dmax tget o_nsets o_set o_hit [Hage Hd] v Hc Hg. subst v. simpl in *.
-  apply guards2 in Hg as [Hg2 Hg4]. assert (Hf2 : fx2 f = true) by (destruct (fx2 f); [reflexivity | discriminate]).
+  intros f b cachable h dflt now dmax bdelay tget o_nsets o_set o_hit (Hage & Hd & Hbd) v Hc Hg. subst v. simpl in *.
+  apply guards2 in Hg as [Hg2 Hg4].
+  assert (Hf2 : fx2 f = true) by (destruct (fx2 f); [reflexivity | discriminate]).
+  assert (Hf4 : fx4 f = true) by (destruct (fx4 f); [reflexivity | discriminate]).
   unfold http_corr in Hc. apply andb_true_iff in Hc as [_ Hc]. unfold http_prop.
   destruct o_set as [t|].
   - apply andb_true_iff in Hc as [Hc Hhit]. apply andb_true_iff in Hc as [Hpos Hc].
-    destruct (http_store_hdr f cachable h dflt now now) as [hi|] eqn:Ehi; [|discriminate].
-    destruct (http_hdr_within_rfc f cachable h dflt now now hi Hf2 ltac:(lia) Hage Hg4 Ehi) as (l & Hl & Hp & Hle).
-    rewrite Hl. assert (E1 : (0 <? t) = true) by lia. assert (E2 : (t <=? l) = true) by lia. rewrite E1, E2. simpl.
+    destruct (http_store_hdr f cachable h dflt now (now + bdelay)) as [hi|] eqn:Ehi; [|discriminate].
+    destruct (http_hdr_within_rfc_at_set f cachable h dflt now (now + bdelay) hi Hf2 Hf4 ltac:(lia) Hage Ehi) as (l & Hl & Hp & Hle).
+    rewrite Hl. assert (E1 : (0 <? t) = true) by lia. assert (E2 : (t <=? l - bdelay) = true) by lia. rewrite E1, E2. simpl.
     destruct o_hit; [|reflexivity]. simpl in Hhit.
     (* served from cache: the entry set with ttl [t] is still live at [tget] *)
     unfold cget, cset in Hhit. destruct b; simpl in Hhit.
